@@ -76,7 +76,7 @@ def gen_input(src, idx):
 
 # weights: cheap table/nested invocables often, the 1-2 ms ones less often (fixed work per plan stays bounded)
 INVOCABLE_WEIGHTS = [(4, "Mid"), (3, "Numeric"), (3, "Temporal"), (3, "Regex"), (3, "Grid"), (2, "Collect"), (2, "Priority"),
-                     (2, "Ranked"), (2, "Ordered"), (1, "Listed"), (1, "Least"),
+                     (2, "Ranked"), (2, "Ordered"), (1, "Listed"), (1, "Least"), (3, "ManyZones"),
                      (2, "Svc"), (2, "Calc"), (2, "Leaf"), (1, "Band"), (1, "Base"), (2, "Top"), (1, "Powers"), (1, "Outer"),
                      (1, "No Such Invocable")]
 
